@@ -1,5 +1,6 @@
 """C14 - comparison, ordering, hashing and formatting see through the pointer."""
-from .. import inline, atomics, cfg, core
+from .. import inline, atomics, balance, cfg, core
+from ..effects import vget
 from ..facts import ALL_HANDLES, NONNULL, operand_place
 
 PROP = "C14"
@@ -284,6 +285,72 @@ def rule_deleg(ctx, rep):
                     rep.ok("R-DELEG-ALL", key, cfg=tag)
                 else:
                     rep.bad("R-DELEG-ALL", key, "%s::%s on %s can return without having asked the payload (a path reaches the return at line %s without passing any call that ends in `%s` on the value): for some values the handle answers differently from the value it holds" % (tr.split("::")[-1], m, st["s"], miss, tr), F.loc(b), tag)
+            if hn:
+                # ... asked exactly once, and nothing else is: the answer (and, for Hash, everything fed to the hasher) is the
+                # value's own - `Arc<T>` must hash like `T` to stand in for it as a map key (R-ONCE)
+                An = balance.analysis(tag, F, E)
+                if key in An.paths and key not in An.errors:
+                    us = [vget(p.vec, "user") for p in An.paths[key] if p.exit == "ret"]
+                    if us and max(us) > 1:
+                        rep.bad("R-ONCE", key, "%s::%s on %s calls into user code %d times on one path (the value's own `%s` must be asked exactly once and nothing else - e.g. no second hash, no extra write to the hasher): the handle no longer answers as the value it holds does" % (tr.split("::")[-1], m, st["s"], max(us), m), F.loc(b), tag)
+                    else:
+                        rep.ok("R-ONCE", key, cfg=tag)
+                # ... with `self` on the left and `other` on the right (R-ORIENT), when the question is asked in this body itself
+                if tr in ("core::cmp::PartialEq", "core::cmp::PartialOrd", "core::cmp::Ord"):
+                    Bh = cfg.Body(inline.inlined_lending(F, key) or b)  # `a.with_arc(|x| b.with_arc(|y| x.cmp(y)))` as straight code
+                    sw = None
+                    for _bi, t in Bh.calls():
+                        if t.get("callee_trait") in ("core::cmp::PartialEq", "core::cmp::PartialOrd", "core::cmp::Ord") and len(t["args"]) == 2:
+                            ra = [_roots(Bh, pl["l"], set()) if pl is not None else set() for pl in (operand_place(a) for a in t["args"])]
+                            if 2 in ra[0] and 1 not in ra[0] and 1 in ra[1] and 2 not in ra[1]:
+                                sw = t
+                    # ... and the value's answer is handed back as it is (R-RESULT): every value assigned to the result is a
+                    # constant (the licensed shortcuts, judged by R-LICENCE / R-NE-NEG / C12) or the unmodified result of asking
+                    # the value the same question - not its negation, `reverse()`, `map(..)`, ...
+                    bh = Bh.b
+                    post = None
+                    todo, seen_l = [0], set()
+                    while todo and post is None:
+                        l0 = todo.pop()
+                        if l0 in seen_l:
+                            continue
+                        seen_l.add(l0)
+                        for d in Bh.defs().get(l0, []):
+                            if d[0] == "call":
+                                t = d[2]
+                                if t.get("callee_trait") in ("core::cmp::PartialEq", "core::cmp::PartialOrd", "core::cmp::Ord") and t.get("callee_name") == m:
+                                    continue
+                                if atomics.callee_of(t) in F.bodies and (F.body(atomics.callee_of(t)).get("name") == m or inline.lending_pred(F)(atomics.callee_of(t))):
+                                    continue  # the same question put to another handle (judged there), or a lending function that was not inlined
+                                if (atomics.callee_of(t) or "").endswith("::ptr_eq") and m in ("eq", "ne"):
+                                    continue
+                                post = "the result passes through `%s` (line %s)" % (atomics.callee_of(t), t["span"]["line"])
+                            else:
+                                rv = d[3]
+                                if rv["k"] == "use":
+                                    pl = operand_place(rv["op"])
+                                    if pl is None:
+                                        continue  # a constant
+                                    if pl["p"]:
+                                        post = "the result is a part of another value (line %s)" % bh["blocks"][d[1]]["stmts"][d[2]]["span"]["line"]
+                                    else:
+                                        todo.append(pl["l"])
+                                elif rv["k"] == "unop" and rv["op"] == "Not":
+                                    pa = operand_place(rv["a"])
+                                    o = Bh.origin(rv["a"]) if pa is not None else {}
+                                    if o.get("kind") == "call" and (atomics.callee_of(o["term"]) or "").endswith("::ptr_eq"):
+                                        continue  # `!ptr_eq(..)`: the negated shortcut test of `ne`
+                                    post = "the result is negated (line %s)" % bh["blocks"][d[1]]["stmts"][d[2]]["span"]["line"]
+                                else:
+                                    post = "the result is computed by a `%s` (line %s)" % (rv["k"], bh["blocks"][d[1]]["stmts"][d[2]]["span"]["line"])
+                    if post is not None:
+                        rep.bad("R-RESULT", key, "%s::%s on %s does not hand back the value's own answer unchanged: %s" % (tr.split("::")[-1], m, st["s"], post), F.loc(b), tag)
+                    else:
+                        rep.ok("R-RESULT", key, cfg=tag)
+                    if sw is not None:
+                        rep.bad("R-ORIENT", key, "%s::%s on %s asks the values as (other, self) (line %s): the answer is that of the mirrored question" % (tr.split("::")[-1], m, st["s"], sw["span"]["line"]), F.loc(b, sw["span"]), tag)
+                    else:
+                        rep.ok("R-ORIENT", key, cfg=tag)
             if hn and len(rep.samples) < 6 and tag == "default":
                 rep.sample({"rule": "R-DELEG", "impl": key, "payload_leaves": sorted(set("%s::%s on %s" % (l["trait"].split("::")[-1], l["method"], F.ts(l["self"])) for l in same))[:4]})
         # eq and ne of one impl take the same route: either both use the same-allocation shortcut or neither does, otherwise
@@ -326,6 +393,30 @@ def rule_deleg(ctx, rep):
                     rep.ok("R-LICENCE", b["key"], cfg=tag)
                 else:
                     rep.bad("R-LICENCE", b["key"], why, F.loc(b), tag)
+    # the same-allocation test itself: nothing but the equality of the two handles' stored pointers (no further disjunct such as
+    # "or the payload is zero-sized", which would extend the licence to handles of different allocations)
+    for tag, F, E in ctx.each():
+        for b in F.body_list:
+            imp = b.get("impl") or {}
+            if b.get("name") != "ptr_eq" or not imp or F.handle_name(imp["self_ty"]) is None or imp.get("trait"):
+                continue
+            B = cfg.Body(b)
+            ik = b["key"]
+            o = B.origin_local(0)
+            sides = None
+            if o.get("kind") == "call" and len(o["term"]["args"]) == 2 and (atomics.callee_of(o["term"]) in ("core::ptr::addr_eq", "core::ptr::eq") or (o["term"].get("callee_trait") == "core::cmp::PartialEq" and o["term"].get("callee_name") == "eq" and pointer_like(F, o["term"]["callee_self"]))):
+                sides = [operand_place(a) for a in o["term"]["args"]]
+            elif o.get("kind") == "rvalue" and o["rv"]["k"] == "binop" and o["rv"]["op"] == "Eq":
+                sides = [operand_place(o["rv"]["a"]), operand_place(o["rv"]["b"])]
+            has_branch = any(bl["term"]["k"] == "switch" for bl in b["blocks"])
+            ok = sides is not None and not has_branch and all(x is not None for x in sides)
+            if ok:
+                ra = [_roots(B, x["l"], set()) for x in sides]
+                ok = (1 in ra[0] and 2 not in ra[0] and 2 in ra[1] and 1 not in ra[1]) or (2 in ra[0] and 1 not in ra[0] and 1 in ra[1] and 2 not in ra[1])
+            if ok:
+                rep.ok("R-LICENCE", ik, "pointer equality of the two stored pointers", cfg=tag)
+            else:
+                rep.bad("R-LICENCE", ik, "`ptr_eq` is not just the equality of the two handles' stored pointers (a branch or a further condition): the licence to skip the value is for handles of the *same allocation* only", F.loc(b), tag)
     rep.floor("R-DELEG", 35, "comparison/hash/format methods on handle and header-slice types (default configuration: 40+)")
     rep.floor("R-LICENCE", 2, "Arc::eq and Arc::ne")
     rep.floor("R-EQ-NE", 2, "handle impls that define both eq and ne")
@@ -833,6 +924,11 @@ def _roots(B, l, seen):
                 pl = operand_place(rv["op"])
             elif rv["k"] in ("ref", "rawptr", "discr"):
                 pl = rv["place"]
+            elif rv["k"] == "agg":
+                for o in rv["ops"]:  # a closure environment / tuple built from other values
+                    po = operand_place(o)
+                    if po is not None:
+                        _roots(B, po["l"], seen)
             if pl is not None:
                 _roots(B, pl["l"], seen)
     return seen
